@@ -50,7 +50,7 @@ def check(run):
         trace = os.path.join(run.work, "c13_trace_%s.ndjson" % tag)
         outp = os.path.join(run.work, "c13_sched_%s.txt" % tag)
         run.drive(binary, "TestC13Sched", env={"VERIF_TRACE": trace, "VERIF_OUT": outp, "VERIF_CONF": json.dumps(cf),
-                                                "VERIF_MAXSCHED": 200000 if thorough else 3000}, timeout=1800)
+                                                "VERIF_MAXSCHED": 15000 if thorough else 3000}, timeout=1800)
         viol, _, summary = summary_of(outp)
         if summary is None:
             raise core.Inconclusive("schedule driver did not finish")
